@@ -4,17 +4,23 @@ Property theorems (DESIGN.md §6 C02).  Models: `FfcxModel/Geometry/RefCell.lean
 entity selection, macro layout), data `FfcxModel/Generated/RefCells.lean` (regenerated from /repo
 on every run by `harness/extract_geom.py`).  Helper lemmas: `FfcxProofs/Lemmas/Geom.lean`.
 
-Theorems: `facet_map_vertices`, `facet_map_affine`, `refgeom_tables`, `refgeom_access_partial`
-(+ `refgeom_access_counterexample`, a real defect recorded as known finding
-`refgeom:reference_facet_edge_vectors:ignores-facet`), `entity_by_restriction`, `macro_layout`.
+Theorems: `refgeom_nonvacuous`, `facet_map_vertices`, `facet_map_affine`, `refgeom_tables`,
+`refgeom_access_partial`, `entity_by_restriction`, `entity_table_read`, `macro_layout`.
 `table_access_spec` (value read = basis function at the entity map of the permuted point) is in
 `FfcxProofs/C03.lean`, next to the permutation rows it depends on.
+
+Everything that is *expected to become false* when the known finding
+`refgeom:reference_facet_edge_vectors:ignores-facet` is repaired upstream
+(`refgeom_access_counterexample`) lives in `FfcxProofs/C02Known.lean`, so that a repair breaks that
+one obligation and not this module.
 -/
 import FfcxModel.Generated.RefCells
+import FfcxModel.Geometry.TableRead
 import FfcxProofs.Lemmas.Geom
+import FfcxProofs.C03
 
 namespace Ffcx.C02
-open Ffcx.Geometry Ffcx.Generated Ffcx.Lemmas.Geom
+open Ffcx.Geometry Ffcx.Generated Ffcx.Lemmas.Geom Ffcx.Perm
 
 /-! ## Geometric specification (what the tables are supposed to be) -/
 
@@ -202,31 +208,63 @@ def perEntityTables : List String :=
   ["reference_normals", "cell_facet_jacobian", "cell_ridge_jacobian", "facet_orientation",
    "reference_facet_edge_vectors"]
 
-/-- **`refgeom_access_partial`** (the full statement — *every* per-entity geometry table that
-`access.py` accepts for a cell type is subscripted by `entity_local_index[r]` — fails for
-`reference_facet_edge_vectors`, see `refgeom_access_counterexample`; it is proved for the other
-per-entity tables: normals, facet/ridge Jacobians, orientations). -/
+/-- **`refgeom_access_partial`** (the full statement `refgeom_access` — *every* per-entity
+geometry table that `access.py` accepts for a cell type is subscripted by `entity_local_index[r]` —
+fails for `reference_facet_edge_vectors`, see `refgeom_access_counterexample` in
+`FfcxProofs/C02Known.lean`; it is proved for the other per-entity tables: normals, facet/ridge
+Jacobians, orientations). -/
 theorem refgeom_access_partial :
     ∀ c ∈ cells, ∀ a ∈ c.access, a.accepted = true → a.table ∈ perEntityTables →
       a.table ≠ "reference_facet_edge_vectors" → a.usesEntity = true := by
   decide +kernel
 
-/-- **Counterexample (real defect of the pinned tree, known finding
-`refgeom:reference_facet_edge_vectors:ignores-facet`).** `access.reference_facet_edge_vectors`
-accepts the tetrahedron and the hexahedron, returns `table[component[0]][component[1]]` *without*
-the facet index, while `geometry.reference_facet_edge_vectors` emits the vectors of all facets
-flattened facet by facet: for facet 1, edge 1 of the tetrahedron the row read (`1`) is not the row
-holding that edge (`rfevRow = 4`) and the two rows differ — UFL's `ReferenceFacetEdgeVectors`
-("for each edge in current facet") evaluates to facet 0's edges on every facet. -/
-theorem refgeom_access_counterexample :
-    (accessOf tetrahedronCell "reference_facet_edge_vectors").map (fun a => (a.accepted, a.usesEntity, a.rank))
-      = some (true, false, 2) ∧
-    rfevRow tetrahedronCell 1 1 = 4 ∧
-    getRow tetrahedronCell.referenceFacetEdgeVectors 1 ≠
-      getRow tetrahedronCell.referenceFacetEdgeVectors (rfevRow tetrahedronCell 1 1) ∧
-    (accessOf hexahedronCell "reference_facet_edge_vectors").map (fun a => (a.accepted, a.usesEntity))
-      = some (true, false) := by
+/-! ## Non-vacuity of the finite statements -/
+
+/-- **`refgeom_nonvacuous`.** The regenerated data the `decide` theorems of this file range over is
+what it is supposed to be (an empty or truncated `refCells`, a facet cell that does not resolve, or
+a table that silently became `none` would make them vacuous):
+* `refCells` holds exactly the 8 cell types, `cells` the 7 of dimension ≥ 1 with their numbers of
+  vertices, facets and edges, `cells3` the four 3D cells;
+* every facet's cell type resolves to a reference cell with as many vertices as the facet;
+* the two tables `refgeom_tables` treats under a `= some v →` guard are present where FFCx emits
+  them: `reference_facet_volume` for interval, triangle, quadrilateral, tetrahedron, hexahedron
+  (prism/pyramid have facets of two types: the writer raises), `facet_edge_vertices` for
+  tetrahedron and hexahedron (prism/pyramid: the writer raises on the ragged array); all other
+  tables are asserted `isSome` by `refgeom_tables` itself;
+* every cell has one `access` record per geometry table, and the 17 (cell, per-entity table) pairs
+  that `access.py` accepts on the pinned tree are accepted — the premises of
+  `refgeom_access_partial` are satisfied 17 times.
+(`harness/extract_geom.py` records why a table/handler is absent; `harness/props/c02.py` reports an
+absence that is not on its expected list.) -/
+theorem refgeom_nonvacuous :
+    refCells.map (·.name) = ["point", "interval", "triangle", "quadrilateral", "tetrahedron",
+      "hexahedron", "prism", "pyramid"] ∧
+    cells.map (fun c => (c.name, c.tdim, c.geometry.length, c.facets.length, c.edges.length)) =
+      [("interval", 1, 2, 2, 1), ("triangle", 2, 3, 3, 3), ("quadrilateral", 2, 4, 4, 4),
+       ("tetrahedron", 3, 4, 4, 6), ("hexahedron", 3, 8, 6, 12), ("prism", 3, 6, 5, 9),
+       ("pyramid", 3, 5, 5, 8)] ∧
+    cells3.map (·.name) = ["tetrahedron", "hexahedron", "prism", "pyramid"] ∧
+    (∀ c ∈ cells, (cellByName c.name).name = c.name ∧ c.facetTypes.length = c.facets.length ∧
+      ∀ f ∈ List.range c.facets.length, (facetCell c f).name = c.facetTypes.getD f "" ∧
+        (facetCell c f).geometry.length = (c.facets.getD f []).length) ∧
+    (∀ n ∈ ["interval", "triangle", "quadrilateral", "tetrahedron", "hexahedron"],
+      (cellByName n).referenceFacetVolume.isSome) ∧
+    (∀ n ∈ ["tetrahedron", "hexahedron"], (cellByName n).facetEdgeVertices.isSome) ∧
+    (∀ c ∈ cells, (c.access.map (·.table)) = ["reference_normals", "cell_facet_jacobian",
+      "cell_ridge_jacobian", "reference_cell_volume", "reference_facet_volume",
+      "reference_cell_edge_vectors", "reference_facet_edge_vectors", "facet_orientation"]) ∧
+    (∀ nt ∈ [("interval", "reference_normals"), ("interval", "facet_orientation"),
+        ("triangle", "reference_normals"), ("triangle", "cell_facet_jacobian"),
+        ("triangle", "facet_orientation"), ("quadrilateral", "reference_normals"),
+        ("quadrilateral", "cell_facet_jacobian"), ("tetrahedron", "reference_normals"),
+        ("tetrahedron", "cell_facet_jacobian"), ("tetrahedron", "cell_ridge_jacobian"),
+        ("tetrahedron", "facet_orientation"), ("hexahedron", "reference_normals"),
+        ("hexahedron", "cell_facet_jacobian"), ("hexahedron", "cell_ridge_jacobian"),
+        ("prism", "cell_facet_jacobian"), ("prism", "cell_ridge_jacobian"),
+        ("pyramid", "cell_facet_jacobian")],
+      (accessOf (cellByName nt.1) nt.2).map (·.accepted) = some true) := by
   decide +kernel
+
 
 /-! ## Entity selection -/
 
@@ -245,6 +283,46 @@ theorem entity_by_restriction (eli : List Nat) :
 /-- Non-vacuity: on the interior facet with local indices `[2, 0]` the '+' side reads row 2 and the
 '-' side row 0 — distinct rows, so exchanging the two sides is observable. -/
 example : entityRow .facet .plus [2, 0] = 2 ∧ entityRow .facet .minus [2, 0] = 0 := by decide
+
+/-- **`entity_table_read`.** Entity selection composed with the table layout, over the model's
+`buildTable`: what a kernel reads through `table_access` (model `tableRead` = `tableAccess` at the
+row `symbols.entity(entity_type, restriction)`) is the basis function `d` at the reference-entity map
+**of the entity `entity_local_index[r]`** (`r = 1` for '-', else 0):
+1. interior facets with reflections (triangle/quadrilateral/tetrahedron/hexahedron cells), permuted
+   table: at the point permuted by the code `quadrature_permutation[r]`;
+2. one-row tables (exterior facets, vertices, ridges, interval cells): at the rule's point, entity
+   `entity_local_index[0]`. -/
+theorem entity_table_read {P C V : Type} [Inhabited V] (perm : Nat → Nat → P → P)
+    (F : Nat → P → C) (phi : Nat → C → V) (nent ndof : Nat) (X : List P) (dP : P)
+    (qperm eli : List Nat) (q d : Nat) (hq : q < X.length) (hd : d < ndof) :
+    (∀ (t : FacetType) (r : Restriction), t.numRef = 2 → qperm.getD r.idx 0 < t.numCodes →
+      eli.getD r.idx 0 < nent →
+      tableRead (buildTable t perm F phi nent ndof X) ⟨true, false, false⟩ .facet r qperm eli q d
+        = phi d (F (eli.getD r.idx 0) (perm (codeRef (qperm.getD r.idx 0)) (codeRot (qperm.getD r.idx 0))
+            (X.getD q dP)))) ∧
+    (∀ (et : EntityType) (r : Restriction), (∀ p, perm 0 0 p = p) → et ≠ .cell →
+      (et = .facet → r ≠ .minus) → eli.getD 0 0 < nent →
+      tableRead (buildTable .point perm F phi nent ndof X) ⟨false, false, false⟩ et r qperm eli q d
+        = phi d (F (eli.getD 0 0) (X.getD q dP))) := by
+  refine ⟨?_, ?_⟩
+  · intro t r ht hN he
+    cases r
+    · exact Ffcx.C03.table_access_spec t ht perm F phi nent ndof X dP false qperm _ q d hN he hq hd
+    · exact Ffcx.C03.table_access_spec t ht perm F phi nent ndof X dP true qperm _ q d hN he hq hd
+    · exact Ffcx.C03.table_access_spec t ht perm F phi nent ndof X dP false qperm _ q d hN he hq hd
+  · intro et r hperm hcell hfac he
+    have hrow : entityRow et r eli = eli.getD 0 0 := by
+      cases et <;> cases r <;> simp_all [entityRow, entity, EntityIndex.value]
+    simp only [tableRead, hrow]
+    exact Ffcx.C03.table_access_spec_noperm perm hperm F phi nent ndof X dP _ qperm _ q d he hq hd
+
+/-- Non-vacuity: hexahedron-like sizes (6 entities), quadrilateral facet, codes `[5, 2]`, local
+facets `[4, 1]`: the '-' side reads entity 1 at the point rotated once (code 2 = 1 rotation). -/
+example :
+    tableRead (buildTable .quadrilateral (fun ref rot => permuteQuad (R := Rat) ref rot)
+        (fun e p => (p.1 + e, p.2)) (fun d p => if d = 0 then p.1 else p.2) 6 2
+        [(1/4, 1/2), (1/8, 1/8)]) ⟨true, false, false⟩ .facet .minus [5, 2] [4, 1] 0 0 = 3/2 := by
+  decide +kernel
 
 /-! ## Macro layout of interior-facet kernels -/
 
